@@ -1,6 +1,9 @@
 package main
 
 // PropSpec maps a property to the rule instances that decide its structural clauses.
+// Every claim is at level "other": the rules decide the named clauses (each a necessary
+// condition of the property) on every path / call site of the current source; they do not decide
+// the behaviour itself. A rule listed here must exist in the rule table (checked at run time).
 type PropSpec struct {
 	Rules       []string
 	Explanation string
@@ -12,12 +15,180 @@ type PropSpec struct {
 
 var propOrder = []string{"C01", "C02", "C03", "C04", "C05", "C06", "C07", "C08", "C09", "C10", "C11", "C12", "C13", "C14", "C15", "C16", "C17", "C18", "C19", "C20"}
 
+const (
+	techOwn  = "static analysis: interprocedural ownership/effect/alias summaries over go/ssa (OWN) and table-level ownership typestate with must-facts (TL)"
+	techErr  = "static analysis: error-flow and dominance rules over go/ssa"
+	techMix  = "static analysis: ownership typestate (TL), effect summaries (OWN), dominance/CFG rules over go/ssa, AST/constant rules over go/types"
+	explBase = "Rules are evaluated on the type-checked SSA form of /repo's current source (go/packages + go/ssa, linux/amd64; thorough adds linux/arm64 and -tags appengine). Every obligation is a concrete construct (function + call site / store / return / switch), listed under all_obligations with its verdict."
+)
+
 var propRules = map[string]*PropSpec{
 	"C01": {
-		Rules: []string{"A1.kernel", "A6.kernel"},
-		Explanation: "Static ownership/effect analysis (go/ssa, interprocedural summaries to a fixpoint) of every container kernel of the three kinds: which parameters a kernel may write and what its result may alias.",
-		Decided: []string{"operands of every container kernel are never written (all 3 kinds x all methods)", "non-in-place kernels leave the receiver unchanged", "results of non-in-place kernels are fresh; in-place kernels return receiver or fresh, never the operand"},
-		NotDecided: []string{"kernel arithmetic (merge loops, galloping, run interval algebra, word masks)", "popcount assembly", "key-merge cursor logic", "result cardinalities"},
-		Technique: "static analysis: interprocedural ownership/effect/alias summaries over go/ssa",
+		Rules:       []string{"A1.kernel", "A6.kernel", "F1", "F8.bitmap", "F8.run", "F10", "F3.32", "A1.api32"},
+		Explanation: explBase + " C01: kernels never write operands, results are fresh, every kind pairing is dispatched, results are re-typed at the 4096 threshold and run results re-minimised, empty results are elided, x.Op(x) is guarded.",
+		Decided: []string{
+			"operands of every container kernel are never written (3 kinds x all methods) and non-in-place kernels leave the receiver unchanged",
+			"non-in-place kernels return fresh containers; in-place kernels return receiver or fresh, never the operand",
+			"every type switch over a container handles all three kinds",
+			"a shrunk/built bitmap container is returned as bitmap only behind a cardinality > 4096 test; run results reach a slot only minimised",
+			"in-place Xor/AndNot test rb == x2 before writing",
+			"And/AndNot/Xor results are stored only when non-empty",
+			"static And/Or/Xor/AndNot and the cardinality/predicate shortcuts never change their operands' contents",
+		},
+		NotDecided: []string{"kernel arithmetic (merge loops, galloping, run interval algebra, word masks)", "popcount assembly vs portable equality", "key-merge cursor logic", "numeric results of *Cardinality / Intersects"},
+		Technique:  techMix,
+	},
+	"C02": {
+		Rules:       []string{"A2.32", "A3.32", "F3.32", "F8.bitmap", "F8.run", "F5"},
+		Explanation: explBase + " C02: every mutator obtains its container through the copy-before-write gate, stores only owned containers, drops emptied chunks, keeps flags aligned with moved containers, re-types/minimises results and inserts at a position searched in the same table.",
+		Decided: []string{
+			"every payload write of Add/CheckedAdd/Remove/CheckedRemove/AddRange/RemoveRange/Flip/AddMany goes through an owned container (gate or fresh)",
+			"every slot store keeps container and copy-on-write flag together (including removeAtIndex/insert shifts)",
+			"Remove/CheckedRemove/RemoveRange/Flip test emptiness of every may-empty result and drop the chunk",
+			"bitmap results <= 4096 are converted; run results are minimised before they are stored",
+			"new keys are inserted at the index searched in the receiver's own table",
+		},
+		NotDecided: []string{"CheckedAdd/CheckedRemove return values", "first/middle/last chunk range arithmetic", "word masks", "that the replayed set equals the model set"},
+		Technique:  techOwn,
+	},
+	"C03": {
+		Rules:       []string{"A1.api32", "A1.kernel", "F1"},
+		Explanation: explBase + " C03: the clause 'queries never modify the bitmap' is decided for every exported read-only function; kind dispatch of the query paths is exhaustive.",
+		Decided:     []string{"no exported query (cardinality, rank/select, extrema, Contains, Equals, ToArray, Checksum, Stats, iterators' constructors ...) changes the contents of its receiver or argument", "read-only container kernels never write receiver or operand", "type switches on the query paths handle all kinds"},
+		NotDecided:  []string{"every numeric result (rank, select, cardinalities, extrema)", "Checksum invariance under Clone / round trip", "AVX2 vs portable popcount"},
+		Technique:   techOwn,
+	},
+	"C04": {
+		Rules:       []string{"F7", "F1", "A1.api32"},
+		Explanation: explBase + " C04: the early-termination clause and the purity of iteration are decided; kind dispatch in iterator init / Iterate / Ranges is exhaustive.",
+		Decided:     []string{"every callback invocation's stop answer is examined and, once false, the callback is never invoked again (Iterate, Values, Backward, Unset, Ranges, per-kind iterate)", "iterator init / Iterate / Ranges handle all three kinds", "iteration never changes the bitmap's contents"},
+		NotDecided:  []string{"order/completeness of the produced sequence", "AdvanceIfNeeded / PeekNext arithmetic", "unset-iterator gap handling", "Ranges merging across chunks"},
+		Technique:   "static analysis: CFG reachability after the stop edge (go/ssa), AST type-switch exhaustiveness, ownership summaries",
+	},
+	"C05": {
+		Rules:       []string{"B1", "B2", "B5", "L2", "L5", "A4"},
+		Explanation: explBase + " C05: error propagation on every encode/decode path, byte accounting of writers and readers, bounded reads, agreement of size prediction / writer / reader on the offset-header predicate and payload sizes, and flagging of zero-copy payloads.",
+		Decided: []string{
+			"no error of a writer/reader call is dropped, and no return reached after a failed call reports nil",
+			"returned byte counts depend on the count of every write; the counting reader accounts every read",
+			"every read of the byte sources is bounds-checked (or delegated to io.ReadAtLeast/ReadFull)",
+			"the offset-header predicate of size prediction, writer and reader agree (and with the spec constant 4)",
+			"per-kind payload size: serializedSizeInBytes == bytes written == offset increment == bytes consumed by the reader",
+			"zero-copy decoded payloads are flagged copy-on-write",
+		},
+		NotDecided: []string{"equality of contents after a round trip", "reader behaviour on arbitrary chunkings beyond io.ReadAtLeast's contract"},
+		Technique:  techErr + "; affine size expressions over go/ssa",
+	},
+	"C06": {
+		Rules:       []string{"L1", "L2", "L5", "L6"},
+		Explanation: explBase + " C06: format constants, header predicate, payload sizes and byte order are compared with the published RoaringFormatSpec values transcribed in the model.",
+		Decided:     []string{"cookies 12347/12346, noOffsetThreshold 4, array/bitmap threshold 4096, bitmap payload 8192 bytes, run element 4 bytes", "offset header present iff no-run cookie or N >= 4, in size prediction, writer and reader", "offset-header increments equal payload sizes per kind", "all multi-byte fields little-endian"},
+		NotDecided:  []string{"that an independent decoder recovers exactly the set", "ascending keys (follows from C09)", "cardinality-minus-one field arithmetic beyond the affine check"},
+		Technique:   "static analysis: constant folding (go/constant), truth tables over normalised branch conditions, affine expression comparison",
+	},
+	"C07": {
+		Rules:       []string{"A1.kernel", "A6.kernel", "A2.32", "A3.32", "A2.64", "A3.64", "A1.api32", "A1.api64", "A1.slices", "F9", "F5"},
+		Explanation: explBase + " C07 (strongest claim): a container reachable from two tables is flagged in both before either writes; every payload write goes through an owned container; every slot store is an owned store, a flagged move or a certified clone-or-share hand-off; aggregates return independent bitmaps; read-only functions change neither bitmaps nor the caller's slice.",
+		Decided: []string{
+			"write gate: every call that may write a container's payload has an owned receiver (32-bit containers and 64-bit buckets)",
+			"hand-off: every slot store (API and raw, ~140 sites) stores owned / moves with its flag / shares with destination flag true and source flag ensured",
+			"kernels return fresh results and never write or return their operand",
+			"no exported read-only function changes a bitmap argument's contents; documented mutators change only their receiver",
+			"no exported function writes the backing array of a slice argument",
+			"aggregates of one bitmap return a fresh bitmap",
+		},
+		NotDecided: []string{"for >= 2 inputs HeapOr/HeapXor's result is the last pushed Or/Xor result (loop-count argument)", "that gate-obtained containers are not shared again before the write inside one function (assumed)"},
+		Technique:  techOwn,
+	},
+	"C08": {
+		Rules:       []string{"A4", "A5", "A2.32", "A3.32"},
+		Explanation: explBase + " C08: caller-owned memory enters a bitmap only as container payload under a true copy-on-write flag, never as a slot-table array; every payload write honours the flag; detach deep-copies every flagged slot.",
+		Decided:     []string{"FromBuffer/FromUnsafeBytes/FrozenView/FromDense(no copy): payload slices of the caller's memory are stored only in containers whose slot flag is true on that path; keys/containers/flags arrays are library-allocated", "NextReturnsSafeSlice is true only for a byte source whose Next allocates", "every in-place path obtains its container through the gate (A2) and flags travel with containers (A3)", "CloneCopyOnWriteContainers replaces every flagged slot by a deep clone and clears the flag"},
+		NotDecided:  []string{"that the bitmap keeps behaving as a correct set (C01-C04)"},
+		Technique:   "static analysis: taint propagation of caller-owned slices over go/ssa + ownership typestate",
+	},
+	"C09": {
+		Rules:       []string{"F3.32", "F8.bitmap", "F8.run", "F2", "V1", "V2"},
+		Explanation: explBase + " C09: the producer side of each Validate conjunct that has a structural form (no empty chunk stored, array/bitmap threshold, runs minimised, lazy cardinality repaired) and the validator's own conjunct table.",
+		Decided:     []string{"no may-empty result is stored without an emptiness test", "bitmap containers are returned only behind cardinality > 4096; run containers reach slots minimised", "lazy kernels that write a bitmap invalidate or recompute the cached cardinality and every lazy aggregate is repaired before it is returned", "Validate calls every per-kind validator on every container and each listed conjunct is present"},
+		NotDecided:  []string{"key order and strict sortedness of payloads after arbitrary kernels (value level)"},
+		Technique:   techMix,
+	},
+	"C10": {
+		Rules:       []string{"B1", "B4", "B5", "T1", "V1", "V2", "U1"},
+		Explanation: explBase + " C10: decoder error discipline, Must* wrappers, bounded reads, size fields bounded before allocation, validator conjuncts (incl. the wrap bound on every run), no 16-bit arithmetic in the frozen reader.",
+		Decided:     []string{"no decoder error is dropped (incl. SkipBytes); MustReadFrom returns ReadFrom's results and panics only with Validate's error", "byte sources check bounds before every slice/advance", "decoded sizes are bounded by a constant before make()/slicing (32-bit decoders)", "validators contain every conjunct the property lists, evaluated on every element"},
+		NotDecided:  []string{"absence of panics in general (arithmetic sufficiency of frozenView's length guards)", "hang-freedom", "mutual consistency of queries on validated input"},
+		Technique:   techErr + "; taint of decoded sizes",
+	},
+	"C11": {
+		Rules:       []string{"F9", "F2", "A1.api32", "A1.slices", "A2.32", "A3.32"},
+		Explanation: explBase + " C11: singleton behaviour of the aggregate siblings, lazy->repair discipline, inputs and the caller's slice unchanged, scratch containers never end up in the result.",
+		Decided:     []string{"every aggregate of one bitmap returns a fresh bitmap", "every lazy union result is repaired before it is returned / sent; lazy kernels mark the cardinality invalid", "aggregates never change their inputs' contents nor the caller's slice", "kernel results never alias the argument, so AndAny's reused scratch containers cannot be stored in x"},
+		NotDecided:  []string{"key-range partition arithmetic of ParOr", "heap grouping", "that the fold is the right fold", "worker-count independence of the result"},
+		Technique:   techMix,
+	},
+	"C12": {
+		Rules:       []string{"P1", "P3", "P4", "PT", "A1.api32"},
+		Explanation: explBase + " C12: protocol skeleton only: WaitGroup pairing, single close by the creator, range-workers released on every path, pool typestate, workers never change input contents.",
+		Decided:     []string{"every goroutine preceded by wg.Add(1) runs a function whose every path calls wg.Done (deferred)", "every channel is closed at most once, by the function that created it, and every for-range worker's channel is closed on every path to the spawner's return", "pooled adapters are Reset after Get, Put exactly once on every path and not retained", "parallel aggregates never change input contents (A1)"},
+		NotDecided:  []string{"absence of data races in general", "result determinism across schedules", "count-based termination arguments (sent == expected)", "GOMAXPROCS effects — these need a race detector / model checker, a different family"},
+		Technique:   "static analysis: goroutine/channel/WaitGroup/pool skeleton rules over go/ssa CFG (must-pass-through, at-most-once)",
+	},
+	"C13": {
+		Rules:       []string{"L4", "B1", "B3", "A4", "T1"},
+		Explanation: explBase + " C13: the three frozen writers, the size predictor and the reader agree on type codes, count fields, element sizes and arena order; FreezeTo checks the buffer before writing; errors propagate; the view is flagged.",
+		Decided:     []string{"type codes bitmap=1/array=2/run=3 and count encodings agree across FreezeTo, WriteFrozenTo, GetFrozenSizeInBytes and frozenView and with the CRoaring layout constants", "FreezeTo's size check dominates every write into buf and the returned count is the checked size", "WriteFrozenTo propagates every writer error", "frozen payloads are flagged copy-on-write, keys are copied", "container count bounded (<= 65536) before allocation"},
+		NotDecided:  []string{"byte equality of the three writers on a given input", "Equal after view"},
+		Technique:   "static analysis: sibling table extraction from type switches (AST + go/constant), dominance",
+	},
+	"C14": {
+		Rules:       []string{"F8.run", "F8.bitmap", "L7"},
+		Explanation: explBase + " C14: the representation-minimisation clause the bound relies on, and the documented constants of BoundSerializedSizeInBytes.",
+		Decided:     []string{"no chunk is left as an un-minimised run container after a mutation or a set operation; shrinking bitmap results are converted at 4096", "BoundSerializedSizeInBytes is the documented affine form (8 bytes header + per-chunk overhead + 2 bytes/value)"},
+		NotDecided:  []string{"the inequality itself for every history"},
+		Technique:   techMix,
+	},
+	"C15": {
+		Rules:       []string{"U1", "A1.api32"},
+		Explanation: explBase + " C15: kernels can express the out-of-chunk sentinels (no 16-bit wrap in the neighbour kernels and drivers) and the queries are pure. Everything else about these functions is value-level.",
+		Decided:     []string{"no 16-bit add/sub in the neighbour queries (3 kinds x 4 kernels + drivers) outside the triaged, reasoned allow-list", "neighbour queries never change the bitmap"},
+		NotDecided:  []string{"the cross-chunk walk of NextAbsentValue/PreviousAbsentValue (known to be wrong on the pinned tree, see DESIGN §6)", "combineLoHi32 use", "binary searches", "agreement of sentinels between kinds (bitmapContainer.nextAbsentValue returns -1)"},
+		Technique:   "static analysis: integer-width rule over go/ssa with a triaged allow-list; ownership summaries",
+	},
+	"C16": {
+		Rules:       []string{"A1.api32", "A3.32", "A6.kernel", "F5", "F6", "A4", "F3.32", "F8.bitmap", "F8.run"},
+		Explanation: explBase + " C16: AddOffset/Flip/ToDense leave b unchanged; results hold only fresh or properly shared containers; static Flip inserts at the answer's index; addOffset nil discipline; FromDense(no copy) never writes the caller's words; shifted parts are re-typed.",
+		Decided:     []string{"AddOffset/AddOffset64/Flip/ToDense/WriteDenseTo never change their bitmap argument", "AddOffset64 and static Flip store only fresh containers or certified hand-offs", "static Flip inserts with an index searched in the answer", "addOffset never returns a typed nil inside the container interface", "FromDense without copy flags the container whenever its payload is the caller's slice", "Flip drops empty results; addOffset parts are returned in their cheapest representation"},
+		NotDecided:  []string{"offset/carry arithmetic", "dense bit layout", "floor division for negative offsets"},
+		Technique:   techMix,
+	},
+	"C17": {
+		Rules:       []string{"A2.64", "A3.64", "F3.64", "F5", "F9", "A1.api64", "A5"},
+		Explanation: explBase + " C17: the 64-bit bitmap's bucket table obeys the same ownership discipline (bucket = container), drops emptied buckets, inserts at the right index and its aggregates return fresh bitmaps.",
+		Decided:     []string{"every bucket write goes through an owned bucket (gate / fresh)", "every bucket store is owned / moved with its flag / cloned", "every may-empty bucket operation is followed by an emptiness test", "insertion index searched in the destination table (static Flip)", "FastOr/FastAnd/ParOr of one bitmap return a fresh bitmap", "read-only API never changes its arguments"},
+		NotDecided:  []string{"per-bucket range splitting", "Rank/Select accumulation", "iterator arithmetic", "absence of panics in general"},
+		Technique:   techOwn,
+	},
+	"C18": {
+		Rules:       []string{"B1", "B2", "B5", "T1"},
+		Explanation: explBase + " C18: error propagation and byte accounting of the 64-bit writers/readers, bounded reads, and the bound on the bucket count before allocation.",
+		Decided:     []string{"no reader/writer error is dropped in roaring64 WriteTo/ReadFrom/FromUnsafeBytes and the inner 32-bit decoders", "returned counts depend on every inner count", "the key is read with io.ReadFull / bounds-checked Next", "decoded counts reach make() only behind an upper bound"},
+		NotDecided:  []string{"round-trip equality", "hang-freedom", "Validate of round-tripped bitmaps"},
+		Technique:   techErr,
+	},
+	"C19": {
+		Rules:       []string{"PC1", "B1", "P1"},
+		Explanation: explBase + " C19: every whole-index operation touches every plane including the sign plane; (un)marshal errors propagate; per-plane goroutines are joined.",
+		Decided:     []string{"Clone/NewBSIRetainSet, ClearValues, ParOr, RunOptimize, Equals, WriteTo/ReadFrom ... iterate over all len(bA) planes (sign plane included)", "Marshal/Unmarshal/WriteTo/ReadFrom propagate errors", "per-plane goroutines are paired with a WaitGroup"},
+		NotDecided:  []string{"two's-complement encode/decode", "ripple-carry addition", "auto-widening / sign extension arithmetic"},
+		Technique:   "static analysis: loop-bound vs slice-length agreement over go/ssa; error-flow rules",
+	},
+	"C20": {
+		Rules:       []string{"A1.bsi", "P1"},
+		Explanation: explBase + " C20: queries never change the index, returned bitmaps are never the index's internal bitmaps, fan-out goroutines are joined.",
+		Decided:     []string{"no BSI query changes the contents of the index's planes or existence bitmap", "no query returns a pointer to an internal bitmap (eBM / bA[i]) of the index", "parallel executors pair every goroutine with WaitGroup.Done"},
+		NotDecided:  []string{"the comparison automaton", "trie/cube shortcuts", "sums and min/max", "found-set restriction arithmetic"},
+		Technique:   techOwn,
 	},
 }
